@@ -119,14 +119,10 @@ def impl(case):
         # index tape of write_breakpoints
         import numpy as np
 
-        rp = SD._RandProxy(np.random)
-        orig = sg.np
-        sg.np = SD._NPProxy(rp)
-        try:
+        with SD.record_random() as rp:
             sg.write_breakpoints(r["num_samples"], r["pop_dict"], r["final"], str(out), SD.silent_log())
-        finally:
-            sg.np = orig
-        idx = [int(x) for x in rp.log[-1][3]]
+        with C.glue("reading the haplotype indices write_breakpoints drew"):
+            idx = [int(x) for x in rp.log[-1][3]]
         final = [[SD.seg_t(s) for s in h] for h in r["final"]]
         tapes = {"idx": idx, "final": final, "pop_dict": {int(k): v for k, v in r["pop_dict"].items()}}
         bp_path = str(out) + ".bp"
